@@ -1144,6 +1144,7 @@ package engine
 //@   pure
 //@   allocates
 //@   ensures err != nil ==> f == nil
+//@   ensures err == nil ==> f != nil
 //@ extern math/big.NewFloat
 //@   pure
 //@   allocates
